@@ -4,7 +4,7 @@ P="$(realpath "$1")"; shift
 cd /repo
 if ! git apply "$P" 2>/dev/null; then
   if ! git apply -3 "$P" >/dev/null 2>&1; then
-    git checkout -q -- . 2>/dev/null; git reset -q 2>/dev/null
+    git reset -q 2>/dev/null; git checkout -q -- . 2>/dev/null
     if ! patch -p1 -s -F3 --no-backup-if-mismatch < "$P"; then
       echo "patch does not apply"; git checkout -q -- .; git clean -fdq -e target; exit 3
     fi
